@@ -317,9 +317,11 @@ def ncomp (o : Obj) : ℕ := (o.cps.data.getD 0 []).length
 /-- `dimension = controlpoints.shape[-1] - rational`. -/
 def dimension (o : Obj) : ℕ := o.ncomp - (if o.rational then 1 else 0)
 
-/-- `obj.section(*sec, unwrap_points=False)`. -/
+/-- `obj.section(*sec, unwrap_points=False)`: the bases of the variable directions
+    (`[b for b, p in zip(self.bases, section) if p is None]`; `sec` has one entry per basis after
+    `check_section`), the sliced control net. -/
 def sect (o : Obj) (sec : Sec) : Obj :=
-  { bases := (List.zip o.bases sec).filterMap (fun p => if p.2 == none then some p.1 else none)
+  { bases := (Orientation.variableDirs sec).map (fun d => o.bases.getD d default)
     cps := o.cps.sect sec
     rational := o.rational }
 
